@@ -269,6 +269,33 @@ def check(ck):
                                "whole method name is checked",
                                "resolve_dotted_attribute does not receive the whole requested name (%s)" % (prov.show(t1) if t1 else "nothing"),
                                q.loc(fi, n))
+    # a resolver written in the package (instead of the stdlib one) must reject '_' on every *segment*
+    for fi in prog.module_funcs(SRV):
+        g = cfg_of(fi)
+        for n in g.live_nodes():
+            for c in node_calls(n):
+                r = prog.resolve_call(fi, c)
+                if not (isinstance(r, FuncInfo) and r.module != SRV or (isinstance(r, FuncInfo) and r.cls is None and r.fq != fi.fq)):
+                    continue
+                bound = [i for i, a in enumerate(c.args) if q.self_attr(prov.origin(g, n, a), "instance")]
+                if not bound:
+                    continue
+                rg = cfg_of(r)
+                rd_ = dominators(rg)
+                gets = [(m, cc) for m in rg.live_nodes() for cc in node_calls(m) if isinstance(cc.func, ast.Name) and cc.func.id == "getattr"
+                        and len(cc.args) >= 2 and not isinstance(cc.args[1], ast.Constant)]
+                for (m, cc) in gets:
+                    n3 += 1
+                    name_e = cc.args[1]
+                    guards = [rg.nodes[i] for i in rd_[m.id] if rg.nodes[i].kind == "branch" and isinstance(rg.nodes[i].test, ast.Call)
+                              and isinstance(rg.nodes[i].test.func, ast.Attribute) and rg.nodes[i].test.func.attr == "startswith"
+                              and rg.nodes[i].test.args and isinstance(rg.nodes[i].test.args[0], ast.Constant) and rg.nodes[i].test.args[0].value == "_"]
+                    okk = any(dump(b.test.func.value) == dump(name_e) and b.polarity is False for b in guards)
+                    ck.require(okk, "C05.3", "%s: getattr(..., %s) in the package's own resolver" % (q.fn(r), dump(name_e)),
+                               "guarded by `%s.startswith('_')` on the same segment" % dump(name_e),
+                               "the package's attribute resolver looks up the segment `%s` of a request-controlled dotted name without rejecting a "
+                               "leading underscore on that very segment (guards: %s): private attributes of the registered instance are reachable"
+                               % (dump(name_e), [dump(b.test) for b in guards]), q.loc(r, m))
     if n3 < 2:
         raise AnalysisError("anchor vanished: instance attribute lookups in the server module (found %d)" % n3)
 
